@@ -6,6 +6,7 @@ use vstd::prelude::*;
 verus! {
 //@ include units/handle_common.rs
 //@ include prelude/hashmap.rs
+//@ autoens max_log_level -> log::LevelFilter => $x.max_log_level_spec()
 /// permission: which level may be installed as the facade's global maximum
 pub uninterp spec fn setmax_ok(l: log::LevelFilter) -> bool;
 pub assume_specification[ log::set_max_level ](l: log::LevelFilter)
@@ -30,6 +31,24 @@ pub broadcast axiom fn ax_max_filter(a: log::LevelFilter, b: log::LevelFilter, r
 pub mod logger_handle {
 //@ include units/handle_types.rs
     use super::level_axioms::*;
+    /// R17 SHIM for `map.values().map(f).max()` on level filters (not used by the code as it is)
+    pub open spec fn ceiling_below<F: Fn(&Box<dyn LogWriter>) -> log::LevelFilter>(f: F, w: Box<dyn LogWriter>, r: Option<log::LevelFilter>) -> bool {
+        exists|y: log::LevelFilter| #[trigger] f.ensures((&w,), y) && r is Some && filter_num(y) <= filter_num(r->Some_0)
+    }
+    pub trait VMaxValuesMap {
+        spec fn vmap(&self) -> Map<String, Box<dyn LogWriter>>;
+        fn vmax_values_map<F: Fn(&Box<dyn LogWriter>) -> log::LevelFilter>(&self, f: F) -> (r: Option<log::LevelFilter>)
+            requires forall|w: Box<dyn LogWriter>| self.vmap().values().contains(w) ==> #[trigger] f.requires((&w,)),
+            ensures
+                r is None ==> forall|w: Box<dyn LogWriter>| !#[trigger] self.vmap().values().contains(w),
+                forall|w: Box<dyn LogWriter>| #[trigger] self.vmap().values().contains(w) ==> ceiling_below(f, w, r),
+                r is Some ==> exists|w: Box<dyn LogWriter>| self.vmap().values().contains(w) && #[trigger] f.ensures((&w,), r->Some_0);
+    }
+    impl VMaxValuesMap for std::sync::Arc<HashMap<String, Box<dyn LogWriter>>> {
+        open spec fn vmap(&self) -> Map<String, Box<dyn LogWriter>> { (**self)@ }
+        #[verifier::external_body]
+        fn vmax_values_map<F: Fn(&Box<dyn LogWriter>) -> log::LevelFilter>(&self, f: F) -> (r: Option<log::LevelFilter>) { self.values().map(f).max() }
+    }
     use super::strmap_axioms::*;
     broadcast use group_level_axioms, vstd::std_specs::hash::group_hash_axioms, ax_max_filter, group_strmap;
 
@@ -38,6 +57,7 @@ pub mod logger_handle {
     //@ fn src/logger_handle.rs impl WritersHandle / fn reconfigure
     //@   props C02
     //@   attr #[verifier::loop_isolation(false)]
+    //@   rule R17 *
     //@   req[reconfigure.pre.perm] forall|l: log::LevelFilter| #[trigger] setmax_ok(l) <==> (filter_num(l) >= filter_num(max_level)
     //@       && forall|w: Box<dyn LogWriter>| #[trigger] self.writers().values().contains(w) ==> filter_num(l) >= filter_num(w.max_log_level_spec()))
     //@   loop 1 iter it
